@@ -27,6 +27,8 @@ pub struct Geom {
     /// FAT32 only: set a non-zero reserved high nibble on some entries
     pub hi_nibble: bool,
     pub label: [u8; 11],
+    /// MBR status byte of the partition entry (0x00 inactive, 0x80 active/bootable)
+    pub status: u8,
 }
 
 impl Geom {
@@ -48,6 +50,7 @@ impl Geom {
             part_type: 0x06,
             hi_nibble: false,
             label: *b"NO NAME    ",
+            status: 0x00,
         }
     }
     pub fn fat32(clusters: u32, spc: u8) -> Geom {
@@ -68,6 +71,7 @@ impl Geom {
             part_type: 0x0C,
             hi_nibble: false,
             label: *b"NO NAME    ",
+            status: 0x00,
         }
     }
     pub fn min_fat_size(&self) -> u32 {
@@ -447,7 +451,7 @@ impl Mk {
         let mut mbr = ZERO;
         {
             let p = 446 + 16 * g.part_slot;
-            mbr[p] = 0x00;
+            mbr[p] = g.status;
             mbr[p + 4] = g.part_type;
             put32(&mut mbr, p + 8, g.lba_start);
             put32(&mut mbr, p + 12, g.total_blocks());
